@@ -132,7 +132,7 @@ pub fn to_witness_node(node: &ConstructNode, values: WitnessValues) -> Arc<Witne
 
         fn convert_data(
             &mut self,
-            _: &PostOrderIterItem<&Node<Construct<J>>>,
+            data: &PostOrderIterItem<&Node<Construct<J>>>,
             inner: Inner<
                 &Arc<WitnessNode<J>>,
                 J,
@@ -140,11 +140,32 @@ pub fn to_witness_node(node: &ConstructNode, values: WitnessValues) -> Arc<Witne
                 &Option<simplicity::Value>,
             >,
         ) -> Result<WitnessData<J>, Self::Error> {
+            let is_witness = matches!(inner, Inner::Witness(_));
             let inner = inner
                 .map(Arc::as_ref)
                 .map(WitnessNode::<J>::cached_data)
                 .map_witness(Option::<simplicity::Value>::clone);
-            Ok(WitnessData::from_inner(&self.inference_context, inner).unwrap())
+            let converted = WitnessData::from_inner(&self.inference_context, inner).unwrap();
+            if is_witness {
+                // The types are inferred anew in a fresh context. The type of a witness node is
+                // its declared Simfony type, even if the program never inspects the witness value.
+                // Without this bound, the assigned value might not fit the inferred node type.
+                let declared = data
+                    .node
+                    .cached_data()
+                    .arrow()
+                    .target
+                    .finalize()
+                    .map_err(|_| ())?;
+                self.inference_context
+                    .unify(
+                        &converted.arrow().target,
+                        &types::Type::complete(&self.inference_context, declared),
+                        "declared witness type",
+                    )
+                    .map_err(|_| ())?;
+            }
+            Ok(converted)
         }
     }
 
